@@ -695,8 +695,8 @@ example : RoundTrip exCfg2 exCtx2 := by
   refine ⟨?_, by unfold GoodTime Valid; decide, by unfold GoodTime Valid; decide,
     by unfold StdOK NoSub; decide, by unfold StdOK NoSub; decide, by unfold HasDate; decide,
     by decide⟩
-  simp [exCfg2, exPath2, exCtx2, Unambig, UserOK, Cfg.regexOf, regexActive, special, fillable,
-    List.lookup]
+  simp [exCfg2, exPath2, exCtx2, Unambig, UserOK, ValueOK, litPrefix, Cfg.regexOf, regexActive,
+    special, fillable, List.lookup]
 example : SubDay (Pe exCfg2) := by unfold SubDay NoSub; decide
 #guard format exCfg2 exPath2 exCtx2 = .ok "/noaa18/20161231_2330-0015_noaa18.nc".toList
 #guard getInfo exCfg2 .filename none {} "/noaa18/20161231_2330-0015_noaa18.nc".toList
@@ -739,8 +739,8 @@ theorem exRoundTrip4 : RoundTrip exCfg4 exCtx4 := by
   refine ⟨?_, by unfold GoodTime Valid; decide, by unfold GoodTime Valid; decide,
     by unfold StdOK NoSub; decide, by unfold StdOK NoSub; decide, by unfold HasDate; decide,
     by decide⟩
-  simp [exCfg4, exPath4, exCtx4, Unambig, UserOK, Cfg.regexOf, regexActive, special, fillable,
-    List.lookup]
+  simp [exCfg4, exPath4, exCtx4, Unambig, UserOK, ValueOK, litPrefix, Cfg.regexOf, regexActive,
+    special, fillable, List.lookup]
 
 example :=
   C02_roundtrip_default exCfg4 exCtx4 exRoundTrip4 {} (by intro f; cases f <;> decide)
@@ -765,6 +765,41 @@ example :=
   C02_roundtrip_subhour exCfg5 exCtx5 exRoundTrip5 none {} (by unfold SubDay NoSub; decide)
     (by decide) (by decide) (by decide) (by decide +kernel) (by decide +kernel)
 #guard getInfo exCfg5 .filename none {} "/2016366.2350-10".toList = .ok (exCtx5.s, exCtx5.e, [])
+
+-- the DEFAULT lazy regex `.+?` (undeclared placeholder `name`), value "a.b" containing '.'
+-- followed by the literal ".nc"; a character-class placeholder; a `\d{3}` placeholder
+def exPath6 : List Tok :=
+  [.lit '/', .ph (.user "orbit"), .lit '_', .ph (.time false .year), .ph (.time false .month),
+   .ph (.time false .day), .lit '_', .ph (.user "sat"), .lit '-', .ph (.user "name"), .lit '.',
+   .lit 'n', .lit 'c']
+def exCfg6 : Cfg :=
+  { path := exPath6,
+    env := [("sat", .cls [('a', 'z'), ('0', '9')] .plus), ("orbit", .digits 3)] }
+def exCtx6 : Ctx :=
+  { s := { y := 2018, mo := 2, d := 28 }, e := { y := 2018, mo := 2, d := 28 },
+    fill := [("name", "a.b".toList), ("sat", "noaa18".toList), ("orbit", "042".toList)] }
+
+theorem exNoEarly : NoEarly "a.b".toList ".nc".toList := by
+  intro k hk
+  have : k = 0 ∨ k = 1 ∨ k = 2 := by simp at hk; omega
+  rcases this with rfl | rfl | rfl <;> decide
+-- … whereas a value that already contains the following literal is (rightly) excluded
+example : ¬ NoEarly "a.nc".toList ".nc".toList := by
+  intro h; have := h 1 (by decide); revert this; decide
+
+theorem exRoundTrip6 : RoundTrip exCfg6 exCtx6 := by
+  refine ⟨?_, by unfold GoodTime Valid; decide, by unfold GoodTime Valid; decide,
+    by unfold StdOK NoSub; decide, by unfold StdOK NoSub; decide, by unfold HasDate; decide,
+    by decide⟩
+  have h := exNoEarly
+  simp [exCfg6, exPath6, exCtx6, Unambig, UserOK, ValueOK, litPrefix, Cfg.regexOf, regexActive,
+    special, fillable, List.lookup, inCls, isDigit]
+  exact h
+
+example := C02_roundtrip_default exCfg6 exCtx6 exRoundTrip6 {} (by intro f; cases f <;> decide)
+#guard format exCfg6 exPath6 exCtx6 = .ok "/042_20180228_noaa18-a.b.nc".toList
+#guard getInfo exCfg6 .filename none {} "/042_20180228_noaa18-a.b.nc".toList
+        = .ok (exCtx6.s, exCtx6.s, [("orbit", "042".toList), ("sat", "noaa18".toList), ("name", "a.b".toList)])
 
 end Examples
 
